@@ -104,11 +104,12 @@ def check_case_fresh(pts, t, k, th, v):
         return "length not additive under splitting: %r + %r vs %r" % (a.length, b.length, L)
     if abs(seg.reversed().length - L) > 1e-9 * max(1.0, L):
         return "length changed by reversal: %r vs %r" % (seg.reversed().length, L)
-    if abs(seg.translated(Point(*v)).length - L) > 1e-9 * max(1.0, L, abs(v[0]), abs(v[1])):
+    M = oc.maxabs(pts)       # moved / scaled coordinates are rounded to their own magnitude: a few ulps of it go into the length
+    if abs(seg.translated(Point(*v)).length - L) > 1e-9 * max(1.0, L, abs(v[0]), abs(v[1])) + 1e-14 * (M + abs(v[0]) + abs(v[1])):
         return "length changed by translation"
     if abs(seg.rotated(Point(*pts[0]), th).length - L) > 1e-7 * max(1.0, L) + 1e-9 * oc.maxabs(pts):
         return "length changed by rotation: %r vs %r" % (seg.rotated(Point(*pts[0]), th).length, L)
-    if abs(seg.scaled(k).length - abs(k) * L) > 1e-9 * max(1.0, abs(k) * L):
+    if abs(seg.scaled(k).length - abs(k) * L) > 1e-9 * max(1.0, abs(k) * L) + 1e-14 * (1 + abs(k)) * M:
         return "length not multiplied by |k| under scaling"
     chord = math.hypot(pts[-1][0] - pts[0][0], pts[-1][1] - pts[0][1])
     poly = sum(math.hypot(q[0] - p[0], q[1] - p[1]) for p, q in zip(pts, pts[1:]))
